@@ -77,6 +77,39 @@ impl Cb {
     }
 }
 
+
+/// is every leaf span of `child` inside the corresponding leaf span of `parent`
+/// (spans: base address, length, element size), element-aligned
+pub fn within(parent: &[(usize, usize, usize)], child: &[(usize, usize, usize)]) -> bool {
+    if parent.len() != child.len() { return false; }
+    parent.iter().zip(child).all(|(p, c)| {
+        if p.2 == 0 { return c.1 <= p.1; }
+        c.0 >= p.0 && c.0 + c.1 * c.2 <= p.0 + p.1 * p.2 && (c.0 - p.0) % p.2 == 0
+    })
+}
+pub fn ref_spans<T: Shape>(addrs: &[usize], parent: &[(usize, usize, usize)]) -> Vec<(usize, usize, usize)> {
+    addrs.iter().zip(parent).map(|(a, p)| (*a, 1, p.2)).collect()
+}
+/// an exhausted `RangeInclusive` (`b..=b` after one `next()`): std indexing treats it as the empty range at `b + 1`
+pub fn exhausted(b: usize) -> std::ops::RangeInclusive<usize> { let mut r = b..=b; r.next(); r }
+
+/// expand an expression once per index form (the seven `SliceIndex` types)
+#[macro_export]
+macro_rules! by_form {
+    ($form:expr, $a:expr, $b:expr, $ex:expr, $idx:ident => pos: $pos:expr, range: $rng:expr) => {
+        match $form {
+            "pos" => { let $idx = $a; $pos }
+            "range" => { let $idx = $a..$b; $rng }
+            "rangeto" => { let $idx = ..$b; $rng }
+            "rangefrom" => { let $idx = $a..; $rng }
+            "full" => { let $idx = ..; $rng }
+            "incl" => { let $idx = if $ex { exhausted($b) } else { $a..=$b }; $rng }
+            "toincl" => { let $idx = ..=$b; $rng }
+            _ => panic!("bad index form"),
+        }
+    };
+}
+
 #[macro_export]
 macro_rules! interp {
     ($run:ident, $T:ident, $V:ident, $S:ident, $SM:ident, $R:ident, $RM:ident, $P:ident, $PM:ident, $cl:tt) => {
@@ -91,6 +124,8 @@ macro_rules! interp {
             for (n, line) in lines.iter().enumerate() {
                 let w: Vec<&str> = line.split_whitespace().collect();
                 let arg = |i: usize| -> usize { w[i].parse().expect("usize arg") };
+                // read-only observations do not reprint the registers (`regs=~` = unchanged)
+                let pure = matches!(w[0], "get" | "index" | "len" | "is_empty" | "view" | "iter" | "bounds" | "tget" | "ptr" | "refs");
                 let (ri, rs): (String, String) = match w[0] {
                     "new" => { let r = reg(w[1]);
                         (exec(0, || { regs[r] = $V::new(); }), exec(1, || { mirs[r] = Vec::new(); })) }
@@ -142,9 +177,47 @@ macro_rules! interp {
                         (exec(0, || { regs[r] = ea.into_iter().collect(); }), exec(1, || { mirs[r] = eb.into_iter().collect(); })) }
                     "len" => { let r = reg(w[1]); (exec(0, || regs[r].len()), exec(1, || mirs[r].len())) }
                     "is_empty" => { let r = reg(w[1]); (exec(0, || regs[r].is_empty()), exec(1, || mirs[r].is_empty())) }
+                    // checked / panicking indexing: <get|index> r <vec|slice|slicemut> <shared|mut> <form> a b [ex]
+                    "get" | "index" => { let r = reg(w[1]); let (kind, mode, form) = (w[2], w[3], w[4]); let (a, b) = (arg(5), arg(6)); let ex = w.get(7) == Some(&"ex");
+                        let getting = w[0] == "get";
+                        let ri = exec(0, || -> String {
+                            let mut pspans = vec![]; <T as Shape>::vspans(&regs[r], &mut pspans);
+                            let fr = |x: $R<'_>| { let mut o = vec![]; <T as Shape>::rids(&x, &mut o); let mut ad = vec![]; <T as Shape>::raddrs(&x, &mut ad); (fmt_ids(&o), within(&pspans, &ref_spans::<T>(&ad, &pspans))) };
+                            let frm = |x: $RM<'_>| { let mut o = vec![]; <T as Shape>::rmids(&x, &mut o); let mut ad = vec![]; <T as Shape>::rmaddrs(&x, &mut ad); (fmt_ids(&o), within(&pspans, &ref_spans::<T>(&ad, &pspans))) };
+                            let fs = |x: $S<'_>| { let mut o = vec![]; <T as Shape>::scols(&x, &mut o); let mut sp = vec![]; <T as Shape>::sspans(&x, &mut sp); (fmt_cols(&o), within(&pspans, &sp)) };
+                            let fsm = |x: $SM<'_>| { let mut o = vec![]; <T as Shape>::smcols(&x, &mut o); let mut sp = vec![]; <T as Shape>::smspans(&x, &mut sp); (fmt_cols(&o), within(&pspans, &sp)) };
+                            fn opt(getting: bool, x: Option<(String, bool)>) -> String { match x { Some((s, inb)) => format!("{}{} inb={}", if getting { "some" } else { "" }, s, inb), None => "none inb=true".into() } }
+                            match (kind, mode, getting) {
+                                ("vec", "shared", true) => by_form!(form, a, b, ex, i => pos: opt(true, regs[r].get(i).map(fr)), range: opt(true, regs[r].get(i).map(fs))),
+                                ("vec", "shared", false) => by_form!(form, a, b, ex, i => pos: opt(false, Some(fr(regs[r].index(i)))), range: opt(false, Some(fs(regs[r].index(i))))),
+                                ("vec", "mut", true) => by_form!(form, a, b, ex, i => pos: opt(true, regs[r].get_mut(i).map(frm)), range: opt(true, regs[r].get_mut(i).map(fsm))),
+                                ("vec", "mut", false) => by_form!(form, a, b, ex, i => pos: opt(false, Some(frm(regs[r].index_mut(i)))), range: opt(false, Some(fsm(regs[r].index_mut(i))))),
+                                ("slice", "shared", true) => { let sl = regs[r].as_slice(); by_form!(form, a, b, ex, i => pos: opt(true, sl.get(i).map(fr)), range: opt(true, sl.get(i).map(fs))) }
+                                ("slice", "shared", false) => { let sl = regs[r].as_slice(); by_form!(form, a, b, ex, i => pos: opt(false, Some(fr(sl.index(i)))), range: opt(false, Some(fs(sl.index(i))))) }
+                                ("slicemut", "shared", true) => { let sl = regs[r].as_mut_slice(); by_form!(form, a, b, ex, i => pos: opt(true, sl.get(i).map(fr)), range: opt(true, sl.get(i).map(fs))) }
+                                ("slicemut", "shared", false) => { let sl = regs[r].as_mut_slice(); by_form!(form, a, b, ex, i => pos: opt(false, Some(fr(sl.index(i)))), range: opt(false, Some(fs(sl.index(i))))) }
+                                ("slicemut", "mut", true) => { let mut sl = regs[r].as_mut_slice(); by_form!(form, a, b, ex, i => pos: opt(true, sl.get_mut(i).map(frm)), range: opt(true, sl.get_mut(i).map(fsm))) }
+                                ("slicemut", "mut", false) => { let mut sl = regs[r].as_mut_slice(); by_form!(form, a, b, ex, i => pos: opt(false, Some(frm(sl.index_mut(i)))), range: opt(false, Some(fsm(sl.index_mut(i))))) }
+                                _ => panic!("bad container kind / mode"),
+                            }
+                        });
+                        let rs = exec(1, || -> String {
+                            let fr = |x: &T| { let mut o = vec![]; x.ids(&mut o); fmt_ids(&o) };
+                            let fs = |x: &[T]| fmt_cols(&mirror_cols(x));
+                            fn opt(getting: bool, x: Option<String>) -> String { match x { Some(s) => format!("{}{} inb=true", if getting { "some" } else { "" }, s), None => "none inb=true".into() } }
+                            let m: &[T] = &mirs[r];
+                            if getting { by_form!(form, a, b, ex, i => pos: opt(true, m.get(i).map(fr)), range: opt(true, m.get(i).map(fs))) }
+                            else { by_form!(form, a, b, ex, i => pos: opt(false, Some(fr(&m[i]))), range: opt(false, Some(fs(&m[i])))) }
+                        });
+                        (ri, rs) }
                     "clonefuse" => { arm_clone_fuse(w[1].parse().unwrap()); (exec(0, || {}), exec(1, || {})) }
                     _ => interp!(@clone $cl, w, regs, mirs, mk, arg, T, $V),
                 };
+                if pure {
+                    let _ = writeln!(out, "I {} {} regs=~", n, ri);
+                    let _ = writeln!(out, "S {} {} regs=~", n, rs);
+                    continue;
+                }
                 let mut ic: Vec<String> = vec![]; let mut sc: Vec<String> = vec![];
                 for r in 0..NREG {
                     let mut c = vec![]; <T as Shape>::cols(&regs[r], &mut c); ic.push(fmt_cols(&c));
